@@ -155,6 +155,12 @@ def run(ctx):
     c13_4(ctx, impls)
     from . import pycodec
     pycodec.run(ctx, "C13.W", parts=("bytes", "hash"))
+    # "trusted and untrusted decoding agree on every input the untrusted decoder accepts": the untrusted decoder must be the
+    # validating one (shared with C14.5)
+    from . import c14
+    _roots, _seen, _impls = c14.closure(ctx)
+    c14.c14_5_trust(ctx, _seen, R="C13.4")
+    c13_vec_count(ctx, impls)
 
 
 # ------------------------------------------------------------------ C13.1a
@@ -590,3 +596,34 @@ def c13_4(ctx, impls):
     ctx.floor(R, "parse bodies scanned for TRUSTED", n, 150)
     for p in TRUSTED_SITES:
         ctx.ob(R, "site-exists:" + p, p in fb.fns, "enumerated TRUSTED site exists")
+
+
+def c13_vec_count(ctx, impls):
+    """a list decodes to exactly as many elements as its length prefix says: the element loop of Vec<T>::parse runs over
+    0..len where len is the u32 read from the wire, unmodified (the pre-allocation cap applies to with_capacity only), and every
+    iteration pushes one parsed element.  Otherwise long lists stop early and decode(encode(v)) != v."""
+    R = "C13.3"
+    fb = ctx.fb
+    ms = impls.get("alloc::vec::Vec<T>")
+    if not ms or "parse" not in ms:
+        return ctx.missing(R, "vec-count", "Vec<T>::parse not found")
+    b = Body(ms["parse"], fb)
+    rngs = []
+    for bi, blk in enumerate(b.blocks):
+        if bi not in b.reach:
+            continue
+        for st in blk["s"]:
+            if st["k"] == "assign" and st["rv"]["k"] == "agg" and "ops::range::Range" in str(st["rv"].get("adt")):
+                rngs.append([strip_all(b.operand_term(o)) for o in st["rv"]["ops"]])
+    ok = len(rngs) == 1
+    detail = None
+    if ok:
+        lo, hi = rngs[0]
+        calls_ = [x for x in subterms(hi) if isinstance(x, tuple) and x and x[0] == "call"]
+        calls_ = [x for x in calls_ if "Try" not in x[1]]
+        ok = lo[0] == "c" and lo[2] == 0 and len(calls_) == 1 and "u32 as chia_traits::streamable::Streamable>::parse" in calls_[0][1] and \
+            not any(isinstance(x, tuple) and x and x[0] == "bin" for x in subterms(hi))
+        detail = [show(lo), show(hi)[:160]]
+    ctx.ob(R, "vec-count:range", ok, "Vec<T>::parse iterates 0..len with len = the parsed u32 prefix, unmodified", found=detail, where=b.fn.sp)
+    pushes = [bi for bi, n, t in b.calls() if U.flat(n).endswith("Vec::push")]
+    U.loop_no_skip(ctx, R, b, "vec-count:push-each", pushes, "every iteration pushes one parsed element")
